@@ -20,6 +20,14 @@ DEDUCTIVE = [
     # iterrows / row.get / pd.isna / cell conversions, the text buffer to its list of written chunks)
     {"module": "rnapolis.parser_v2", "sidecar": "contracts.parser_v2_write_c", "targets": ["write_pdb"],
      "opts": {"z3_probe_ms": 400, "cvc5_probe_s": 6}},
+    # the mmCIF legs: write_cif up to the hand-over to the mmcif library (which column feeds which atom_site item, what is
+    # written for a missing value), parse_cif_atoms from the reader's result up to the DataFrame construction (which item
+    # feeds which key, null markers -> None), and the one-row compositions PDB table -> items -> record, mmCIF table -> items -> record
+    {"module": "rnapolis.parser_v2", "sidecar": "contracts.parser_v2_cif_c",
+     "targets": ["_pdb_charge_to_int_str", "write_cif@rows", "parse_cif_atoms@decode", "parse_cif_atoms@decode_file", "parse_cif_atoms@decode_stringio", "lemma:signed_text_value",
+                 "lemma:pdb_row_through_cif", "lemma:cif_row_through_cif",
+                 "lemma:signed_digit_canonical", "lemma:int_ok_of_str", "lemma:charge_text_back", "lemma:pdb_atom_back_from_cif"],
+     "opts": {"z3_probe_ms": 400, "cvc5_probe_s": 6}},
 ]
 TRUSTED = ["pandas (DataFrame construction, dtype coercion)", "mmcif IoAdapterPy reader/writer as used by the library (its quoting is part of what is exercised, not assumed)",
            "gen/emit.py + gen/atomtables_c09.py emitters and oracles/roundtrip_o.py column slicing (written from the PDB 3.3 / mmCIF descriptions, not from the library)",
@@ -39,7 +47,29 @@ TRUSTED = ["pandas (DataFrame construction, dtype coercion)", "mmcif IoAdapterPy
            "pd.isna(x) (external pandas isna): True for None, the uninterpreted cell_isna for a cell; int(cell) / float(cell) / str(cell) (externals Cell.__int__ / __float__ / __str__): "
            "the uninterpreted cell_int / cell_float / cell_str of the cell, int() / float() raising unless the uninterpreted cell_int_ok / cell_float_ok hold; str(None) is 'None'",
            "io.StringIO (externals _io.StringIO, Buffer.write, Buffer.getvalue, Buffer.close): write(s) appends s to the buffer's list of written chunks, getvalue() returns the uninterpreted "
-           "`joined` of that list (standing for the concatenation of the chunks in order)"]
+           "`joined` of that list (standing for the concatenation of the chunks in order)",
+           # assumed externals of contracts/parser_v2_cif_c.py (deductive part: mmCIF legs)
+           "pandas as used by write_cif (contracts/parser_v2_cif_c.py, on top of the abstraction above): df.columns is the list of column names (field `columns` of the record Frame; every name in it is a column of the table: "
+           "requires of write_cif@rows); row[key] (external Row.__getitem__) is the cell of column key and raises KeyError when the table lacks the column; row.get(key) for a computed key (external Row.get) is the cell, "
+           "None when the table lacks the column (column labels are taken to be unique)",
+           "format(x, '.3f') / format(x, '.2f') (f-string specs of write_cif): uninterpreted functions py_fmt__3f / py_fmt__2f of the value (external builtins.format of parser_v2_cif_c); what they compute enters only "
+           "through the assumed lemmas fmt3_roundtrip / fmt2_roundtrip (see ASSUMPTIONS)",
+           "mmcif writer = the tail of write_cif from `DataCategory('atom_site', attributes, rows)` on (DataContainer.append, IoAdapterPy.writeFile, temporary file, read back): NOT executed by the proof (write_cif@rows is a prefix contract); "
+           "DataContainer(name) itself is modelled as a new object (external mmcif.api.PdbxContainers.DataContainer)",
+           "mmcif reader = the head of parse_cif_atoms: IoAdapterPy() (external, new object); tempfile.NamedTemporaryFile(mode='w+', ..) with __enter__ / __exit__ (returns False) / write (externals tempfile.NamedTemporaryFile, TempFile.*); "
+           "os.remove (external posix.remove: no effect on what the function reads afterwards, OSError not modelled); adapter.readFile(path) (external Adapter.readFile) returns the document named by the contract's ghost parameters - "
+           "NB data blocks, the first has a category atom_site iff HAS, with item names ATTRS and rows ROWS - nothing is assumed about how the text becomes that document; block.getObj(name), category.getAttributeList() / getRowList() / "
+           "__len__ (externals CifBlock.getObj, Category.*: the ghost document for the first block's atom_site, unknown values for every other block / name; len(category) = number of rows, which decides its truth value); "
+           "pd.DataFrame() without arguments (external pandas.core.frame.DataFrame: some table, returned for a missing / empty atom_site)",
+           "between write_cif@rows and parse_cif_atoms@decode lies the mmcif library (writer to text, reader from text): lemmas pdb_row_through_cif / cif_row_through_cif / pdb_atom_back_from_cif take for granted that the reader returns the item names "
+           "and cell texts the writer was given (ATTRS == attributes, ROWS[i] == rows[i]); quoting / escaping is exercised by the bounded checks only",
+           "pandas tail of parse_cif_atoms (`df = pd.DataFrame(records)`, pd.to_numeric, astype('Int64') / astype('category'), df.attrs): pandas from there to the end, NOT under contract; its assumed effect on one row is the "
+           "spec frame_holds_record of parser_v2_cif_c (text items: cell missing iff the record holds None, else the same text; integer items: int() of the cell = int() of the text, str() of the cell = decimal text of that integer; "
+           "float items: float() of the cell = float() of the text; int() of a text cell = int() of its text) - a HYPOTHESIS of lemma pdb_atom_back_from_cif, not a proved fact",
+           "pyvc models str.isdigit() (used by _pdb_charge_to_int_str) for ASCII text only: the contracts require the charge text to be ASCII",
+           "input objects of parse_cif_atoms (sidecar classes of parser_v2_cif_c): NamedFile = an open text file (declared: not a str, not an io.StringIO; has the attribute `name`; hasattr(obj, 'name') through the external builtins.hasattr: "
+           "True for a declared field), StringIn = an io.StringIO (declared: isinstance(.., io.StringIO); seek(0) then read() return its text: externals StringIn.seek / StringIn.read); the isinstance answers are declarations of the class entries "
+           "(key `isinstance`), part of the model"]
 ASSUMPTIONS = [
     "formal charge is compared as a signed integer (PDB text '2+' = mmCIF integer 2); on paths that pass through PDB an explicit mmCIF charge 0 and an absent charge are not distinguished (PDB has one blank form for both); mmCIF->mmCIF distinguishes them",
     "a blank PDB chain column is the empty chain identifier; such tables can only start from PDB text (paths PDB->PDB and PDB->mmCIF->PDB)",
@@ -68,6 +98,21 @@ ASSUMPTIONS = [
     "rules from the two contracts {RA} f {EA} (_format_pdb_atom_line) and {RB} f {EB} (_format_pdb_atom_line@signed_charge) proved above on the same function; built mechanically from their clause lists",
     "the contract used for _format_pdb_ter_line at write_pdb's call sites is the proved contract of parser_v2_c (same requires / ensures objects) with the additional call-site obligation that an Optional argument is not None",
     "a 'model' is a maximal run of consecutive rows with one model number, a 'chain' a maximal run of consecutive rows with one (model number, chain identifier) - as in the bounded oracle",
+    # deductive part, mmCIF legs (contracts/parser_v2_cif_c.py)
+    "write_cif is verified up to the hand-over to the mmcif library (prefix contract write_cif@rows, cut in front of `atom_site_category = DataCategory(..)`); the `output` parameter is not read before the cut",
+    "DEDUCTIVE quantifier of write_cif@rows (requires): every name in df.columns is a column; a table whose format tag is not 'mmCIF' (the code treats every such table as PDB-format) has the 16 columns parse_pdb_atoms builds, "
+    "its serial / resSeq / model cells are accepted by int(), its x / y / z / occupancy / tempFactor cells by float() (spec numbers_readable), and the text of its charge cells is ASCII",
+    "the property does not say which of the two mmCIF null markers stands for a missing value: the clauses accept '?' or '.' (spec null_marker); label_entity_id (generated by write_cif, not a table field) is only required not to be a null marker",
+    "parse_cif_atoms is verified under the same prefix contract for its three input forms: content a str (@decode: text -> temporary file -> reader), an io.StringIO (@decode_stringio: seek(0), read(), temporary file) and an open text file with a "
+    "name (@decode_file: the reader gets content.name - the form used by splitter / aligner / unifier); the final `raise TypeError` for any other argument is not covered; "
+    "everything from `category = data[0].getObj('atom_site')` on is common to the three",
+    "DEDUCTIVE quantifier of parse_cif_atoms@decode (requires): NB >= 0; the item names ATTRS of the atom_site category are pairwise different (a CIF loop_ cannot name an item twice - otherwise the later column would win in the dict); "
+    "rows may be shorter or longer than the item list (zip stops at the shorter one: the clauses speak about k < min(len(ATTRS), len(ROWS[j])))",
+    "parse_cif_atoms raises IndexError exactly when the reader returns no data block (NB == 0; proved as raises.IndexError.only-when / whenever); a missing or empty atom_site gives pd.DataFrame() (no claim about that table)",
+    "assumed-external lemmas fmt3_roundtrip / fmt2_roundtrip (parser_v2_cif_c): for x strictly between -999.9995 and 9999.9995 (-99.995 and 999.995) format(x, '.3f') (format(x, '.2f')) is a float literal within 0.0005 (0.005) of x and is not '?' / '.'",
+    "hypotheses of the one-row lemmas pdb_row_through_cif / pdb_atom_back_from_cif: the row's atom is within PDB limits (spec fits_pdb of parser_v2_c on atom_pdb(r)), model number 0..9999, atom name / residue name / chain are not '?' or '.', "
+    "an optional text cell (altLoc, iCode, element, charge) that holds a value holds a non-empty text other than '?' / '.' (spec texts_survive_cif - such texts cannot be told from the null markers once written); "
+    "cif_row_through_cif: a present cell text is not '?' / '.'",
 ]
 EXPLANATION = ("DEDUCTIVE (string level, real code of parser_v2.py re-read on every run): "
                "(1) _format_pdb_atom_line under contract: for atom data within PDB limits the result has exactly 80 columns and every field sits at its PDB 3.3 columns - "
@@ -99,7 +144,29 @@ EXPLANATION = ("DEDUCTIVE (string level, real code of parser_v2.py re-read on ev
                "[nothing-between-atoms-of-one-chain, only-TER-between-chains-of-one-model, END-and-nothing-more, empty-table-END-only] inside a chain POS[i+1] == POS[i] + 1, at a chain change inside a model POS[i+1] == POS[i] + 2, "
                "behind the last ENDMDL only 'END' (len(OUT) == POS[N-1] + 4), an empty table gives 'END' alone: together these fix every position of OUT. "
                "[raises.ValueError.only-when / whenever] ValueError exactly when the table has rows and its format tag is neither 'PDB' nor 'mmCIF'. "
-               "Proof: loop invariants over the same maps; the string-level predicates (layout of a line, same chain / model, MODEL text) are named by explicit ghost definitions and unfolded instance by instance.")
+               "Proof: loop invariants over the same maps; the string-level predicates (layout of a line, same chain / model, MODEL text) are named by explicit ghost definitions and unfolded instance by instance. "
+               "DEDUCTIVE, mmCIF legs (contracts/parser_v2_cif_c.py; supersedes 'write_cif ... everything mmCIF stay bounded' above as far as stated here): "
+               "(6) _pdb_charge_to_int_str under contract: with t = the cell text without surrounding whitespace, a PDB charge (digit, sign) becomes the optionally negated digit ('2+' -> '2', '1-' -> '-1'; "
+               "lemma signed_text_value: that text spells the integer the PDB text stands for), the sign-first spelling likewise, every other text is handed on unchanged. "
+               "(7) write_cif@rows, PREFIX contract on the real function up to (not including) the construction of the mmcif DataCategory: [item-names-..] for a table tagged 'mmCIF' the item names are the table's columns in order, "
+               "for every other table the 21 names group_PDB, id, type_symbol, label_atom_id, label_alt_id, label_comp_id, label_asym_id, label_entity_id, label_seq_id, pdbx_PDB_ins_code, Cartn_x/y/z, occupancy, B_iso_or_equiv, "
+               "pdbx_formal_charge, auth_seq_id, auth_comp_id, auth_asym_id, auth_atom_id, pdbx_PDB_model_num; [one-atom_site-row-per-table-row] len(rows) == number of table rows; [PDB-table-row-i-item-by-item] rows[i] has 21 texts: "
+               "group_PDB = record type, id = serial, label_atom_id = auth_atom_id = atom name, label_comp_id = auth_comp_id = residue name, label_asym_id = auth_asym_id = chain, label_seq_id = auth_seq_id = residue number, "
+               "pdbx_PDB_model_num = model (integers as decimal texts), Cartn_x/y/z = format(.., '.3f'), occupancy / B_iso_or_equiv = format(.., '.2f'), type_symbol / label_alt_id / pdbx_PDB_ins_code = element / altLoc / iCode or a null "
+               "marker ('?' or '.') when the cell is missing, pdbx_formal_charge = a null marker when missing, else for a PDB charge text the signed integer text of (6); [mmCIF-table-row-i-column-by-column] rows[i][k] is the text of "
+               "column k's cell, '?'/'.' when missing; no KeyError / ValueError under the stated requires. The tail (DataCategory, DataContainer.append, IoAdapterPy.writeFile, temporary file) is the mmcif library's writer: trusted, bounded only. "
+               "(8) parse_cif_atoms@decode / @decode_stringio / @decode_file, one PREFIX contract for the three input forms (str, io.StringIO, open file with a name) up to (not including) `df = pd.DataFrame(records)`, relative to the document (NB, HAS, ATTRS, ROWS) the mmcif reader returns: "
+               "[reached-only-with-a-non-empty-atom_site] the cut is reached only if the first block has an atom_site with at least one row (otherwise pd.DataFrame() is returned; IndexError exactly when NB == 0); "
+               "[item-names-are-the-category's, one-record-per-atom_site-row] attributes == ATTRS, len(records) == len(ROWS); [entry-of-item-k-is-cell-k-null-markers-None] records[j][ATTRS[k]] is ROWS[j][k], None when that text is '?' or '.'; "
+               "[no-other-keys] records[j] has no key besides those item names. From there on the function is pandas from top to bottom (DataFrame(records), to_numeric, astype): not under contract, bounded only. "
+               "(9) one-row compositions (lemmas, proved): pdb_row_through_cif - a row of a PDB-format table within PDB limits, the 21 items of (7), decoded as in (8), gives a record holding record type, serial, atom name, altLoc (None when absent), "
+               "residue name, chain, residue number, iCode, element under the mmCIF item names exactly, x/y/z to 0.0005 and occupancy / B to 0.005 through float() of the text, the charge as the signed integer text of the PDB charge, the model; "
+               "cif_row_through_cif - a row of an mmCIF-format table comes back column by column (None for missing); pdb_atom_back_from_cif - if the table row built from that record is what the (trusted) pandas tail is taken to build "
+               "(spec frame_holds_record), the atom write_pdb reads from it (spec atom_cif of (5): author identifiers first) has the PDB row's record name, serial, name, altLoc, residue name, chain, residue number, iCode, element, model, "
+               "coordinates within 0.0005, occupancy / B within 0.005 and the charge as signed-digit text of the same integer (the form (1b) lays out as digit, sign), and the row satisfies write_pdb's precondition `readable` - "
+               "so the chain PDB table -> (7) -> [mmcif writer/reader, trusted] -> (8) -> [pandas tail, trusted] -> (5) -> (1b) -> (3) -> (4) is closed at the level of one row for the cross path PDB->mmCIF->PDB. "
+               "STAYS BOUNDED ONLY: the mmcif library (quoting, text form), the pandas tails of both readers, the output= branches of both writers (write_cif@rows does not read `output` before its cut), fit_to_pdb, "
+               "the direction mmCIF->PDB->mmCIF beyond (5)+(3)+(4) (no lemma composes parse_pdb_atoms' table with write_cif's mmCIF-format branch: the table parse_pdb_atoms builds is PDB-format, covered by (7) [PDB-table-row-i-item-by-item]).")
 
 CHECKS = [
     # (check name, aspect, nontrivial(info))
